@@ -223,8 +223,8 @@ func notFoundFact(w *World, s Summary, e *Term) (known, val bool, seq int) {
 	}
 	for _, c := range calls(s, "google.golang.org/grpc/status.Convert") {
 		if len(c.Args) == 1 && c.Args[0] == e {
-			for _, c2 := range calls(s, "(*google.golang.org/grpc/status.Status).Code") {
-				if c2.Recv == c.Res {
+			for _, c2 := range s.Events {
+				if c2.Kind == "call" && strings.HasSuffix(c2.Callee, "status.Status).Code") && c2.Recv == c.Res {
 					if k, v, sq := eqConstFact(s, c2.Res, nf); k {
 						return k, v, sq
 					}
@@ -233,6 +233,15 @@ func notFoundFact(w *World, s Summary, e *Term) (known, val bool, seq int) {
 		}
 	}
 	return false, false, 0
+}
+
+// eqCallFact: truth of an equality predicate call (bytes.Equal, reflect.DeepEqual: boolean result;
+// subtle.ConstantTimeCompare: result compared with 1).
+func eqCallFact(s Summary, ev Event) (known, val bool, seq int) {
+	if ev.Callee == cCTCmp {
+		return eqConstFact(s, ev.Res, "1")
+	}
+	return boolFact(s, ev.Res)
 }
 
 // wraps reports whether error term t is, or is built by fmt.Errorf/%w-style wrapping from, inner.
